@@ -126,7 +126,7 @@ def _one_patch(args):
 def corpus(pid, tmp, files=None):
     items = _patches(pid, files)
     res = {'changes_that_break_the_property': [], 'behaviour_preserving': [], 'summary': {}}
-    with concurrent.futures.ThreadPoolExecutor(max_workers=8) as ex:
+    with concurrent.futures.ThreadPoolExecutor(max_workers=int(os.environ.get('NV_JOBS', '12'))) as ex:
         for name, kind, own, outcome, rules in ex.map(_one_patch, [(pid, n, p, k, o, tmp) for n, p, k, o in items]):
             rec = {'patch': name, 'outcome': outcome, 'rules': rules}
             if kind == 'break':
